@@ -36,7 +36,15 @@ const c04Third = 3
 var (
 	c04Vals  []string // operator addresses, index = validator id
 	c04Ready bool
+	// ghost ledger per message type, independent of the model: what the signer granted since the last approval
+	// (approved + increases − decreases) and what the contract spent since then
+	c04Ghost = map[string]*c04Ledger{}
 )
+
+type c04Ledger struct {
+	limited        bool
+	granted, spent *big.Int
+}
 
 func c04ValID(op string) int {
 	for i, v := range c04Vals {
@@ -127,9 +135,10 @@ func c04Gen(r *rand.Rand, tier string) []Case {
 				arg := pick(r, []string{"max", "0", fmt.Sprint(1 + r.Intn(5000)), fmt.Sprint(1 + r.Intn(5000))})
 				c = append(c, fmt.Sprintf("sallow approve %s ? ? # method=%s", arg, method))
 			case x < 5:
-				c = append(c, fmt.Sprintf("sallow increase %d - ? # method=%s", 1+r.Intn(1000), method))
+				c = append(c, fmt.Sprintf("sallow increase %s - ? # method=%s", pick(r, []string{fmt.Sprint(1 + r.Intn(1000)), fmt.Sprint(1 + r.Intn(1000)), "0"}), method))
 			case x < 7:
-				c = append(c, fmt.Sprintf("sallow decrease %d - ? # method=%s", 1+r.Intn(1500), method))
+				// also exactly the remaining limit, one less and one more
+				c = append(c, fmt.Sprintf("sallow decrease %s - ? # method=%s", pick(r, []string{fmt.Sprint(1 + r.Intn(1500)), "lim", "lim", "lim-1", "lim+1"}), method))
 			case x < 8:
 				c = append(c, fmt.Sprintf("sallow revoke 0 - ? # method=%s", method))
 			case x < 9:
@@ -141,6 +150,15 @@ func c04Gen(r *rand.Rand, tier string) []Case {
 				amt := pick(r, []string{"lim-1", "lim", "lim+1", "half", fmt.Sprintf("abs:%d", 1+r.Intn(3000))})
 				c = append(c, fmt.Sprintf("scall 0 %d %d %d ? ? ? # method=%s amt=%s", caller, deleg, val, method, amt))
 			}
+		}
+		if r.Intn(2) == 0 {
+			// the granter takes back exactly what is left, then the contract tries to spend
+			c = append(c, fmt.Sprintf("sallow approve %d ? ? # method=%s", 1+r.Intn(900), method),
+				fmt.Sprintf("scall 0 1 0 0 ? ? ? # method=%s amt=half", method),
+				fmt.Sprintf("sallow decrease lim - ? # method=%s", method),
+				fmt.Sprintf("scall 0 1 %d 0 ? ? ? # method=%s amt=abs:%d", r.Intn(2), method, 1+r.Intn(50)),
+				fmt.Sprintf("sallow increase 0 - ? # method=%s", method),
+				fmt.Sprintf("scall 0 1 0 0 ? ? ? # method=%s amt=abs:1", method))
 		}
 		if r.Intn(2) == 0 {
 			// a grant (unlimited or limited), then a validator that the grant's allow-list cannot contain, then calls naming it
@@ -238,6 +256,22 @@ func c04Exec(c Case) (outs []string, fails []Failure, tags []string) {
 					f[3] = strings.Join(now, ",")
 				}
 				f[4] = pre
+				if _, pa := c04Grant(method); strings.HasPrefix(f[2], "lim") {
+					lim := big.NewInt(700)
+					if pa != nil && pa.MaxTokens != nil {
+						lim = pa.MaxTokens.Amount.BigInt()
+					}
+					switch f[2] {
+					case "lim-1":
+						lim = new(big.Int).Sub(lim, big.NewInt(1))
+					case "lim+1":
+						lim = new(big.Int).Add(lim, big.NewInt(1))
+					}
+					if lim.Sign() < 0 {
+						lim = big.NewInt(0)
+					}
+					f[2] = lim.String()
+				}
 				c[i] = strings.Join(f, " ")
 				amt := new(big.Int)
 				if f[2] == "max" {
@@ -271,6 +305,25 @@ func c04Exec(c Case) (outs []string, fails []Failure, tags []string) {
 				st := "fail"
 				if okExec {
 					st = "ok"
+					g := c04Ghost[method]
+					switch f[1] {
+					case "approve":
+						if f[2] == "max" || amt.Sign() == 0 {
+							c04Ghost[method] = &c04Ledger{}
+						} else {
+							c04Ghost[method] = &c04Ledger{limited: true, granted: new(big.Int).Set(amt), spent: big.NewInt(0)}
+						}
+					case "increase":
+						if g != nil && g.limited {
+							g.granted.Add(g.granted, amt)
+						}
+					case "decrease":
+						if g != nil && g.limited {
+							g.granted.Sub(g.granted, amt)
+						}
+					case "revoke":
+						c04Ghost[method] = &c04Ledger{}
+					}
 				}
 				out = st + " " + post
 				tags = append(tags, "allow-"+f[1]+"-"+st)
@@ -377,6 +430,12 @@ func c04Exec(c Case) (outs []string, fails []Failure, tags []string) {
 					}
 				} else {
 					out = fmt.Sprintf("ok %d %s", debited, post)
+					if g := c04Ghost[method]; g != nil && g.limited {
+						g.spent.Add(g.spent, amt)
+						if g.spent.Cmp(g.granted) > 0 {
+							fl("C04:spent-more-than-granted", fmt.Sprintf("since the last approval the signer granted %s in total (approval + increases − decreases) and the contract has now spent %s", g.granted, g.spent))
+						}
+					}
 					// the property's own predicate: a live grant covered type, validator and amount, and was reduced exactly
 					switch {
 					case preAuth == nil:
